@@ -9,14 +9,15 @@ RULE = ("kernel level: ALL ordered pairs of canonical sets with <=3 intervals on
         "with the pointwise Boolean oracle on the half-integer grid; API level: seeded pairs at scales 1us/2us/1ms/1s, "
         "pointwise oracle for instants farther than 1us from every endpoint, endpoint provenance, commutativity, A op A, "
         "A op empty, duration identities within 1us per junction, TsGroup n-ary union. distinct = distinct ordered pairs")
-PROVED = ("for canonical operands, all three kernels are the Boolean operations pointwise: union_pointwise (x in an interval emitted by "
-          "jitunion iff x in A or x in B; + union_comm_pointwise, union_idem_pointwise), intersect_pointwise (x not an endpoint of A: in "
-          "A.intersect(B) iff in A and in B; from intersect_entries / _sound / _positive / intersect_pairs_complete / intersect_complete), "
-          "diff_pointwise (x not an endpoint of B: in A.set_diff(B) iff in A and not in B; from diff_entries / diff_subset / diff_complete / "
-          "diff_between / diff_avoids); unionIsets_mem (n-ary union kernel = pointwise union, exactly)")
-NOT_PROVED = ("the 1-microsecond touch separation applied by the IntervalSet constructor to the kernel output (C01: canonical form is proved, "
-              "coverage up to the trim is not), duration identities: decided by the exhaustive order-type correspondence and the pointwise "
-              "oracle only")
+PROVED = ("END TO END for the public operations (constructor o kernel = ISet.union / intersect / diff, the functions the driver runs): "
+          "ISet_union_pointwise, ISet_intersect_pointwise, ISet_diff_pointwise - for canonical A, B and every instant farther than 1 us "
+          "from every endpoint of A and B, membership in the result is (in A or in B), (in A and in B), (in A and not in B); corollaries "
+          "ISet_union_comm, ISet_intersect_comm. Built from: kernel pointwise theorems union_pointwise / intersect_pointwise / "
+          "diff_pointwise (+ intersect_entries, _sound, _positive, _pairs_complete, _complete; diff_entries, _subset, _complete, "
+          "_between, _avoids; unionIsets_mem for the n-ary kernel), 'every endpoint of a result is an endpoint of an operand, no interval "
+          "inverted' (jitunion_entries, jitintersect_entries, jitdiff_entries), and C01 mk_sound / mk_complete")
+NOT_PROVED = ("duration identities |A u B| + |A n B| = |A| + |B| etc. (they follow from the pointwise statements only up to the 1 us slivers): "
+              "decided by the exhaustive order-type correspondence and the oracle")
 ASSUMPTIONS = ["operands are canonical (C01)"]
 
 
